@@ -1304,6 +1304,19 @@ impl Connection {
             debug!("ignoring redundant forced key update");
             return;
         }
+        // A further key update must not be initiated before a packet protected with the current
+        // keys has been acknowledged (RFC 9001 §6.1); otherwise the peer, still one phase behind,
+        // can no longer tell which keys our packets use.
+        let space = &self.spaces[SpaceId::Data];
+        let first_with_current_keys = space.next_packet_number - space.sent_with_keys;
+        if space.sent_with_keys == 0
+            || space
+                .largest_acked_packet
+                .is_none_or(|acked| acked < first_with_current_keys)
+        {
+            debug!("ignoring forced key update before the current keys were acknowledged");
+            return;
+        }
         self.update_keys(None, false);
     }
 
